@@ -429,11 +429,11 @@ theorem rangeNames_run (known titles : List Key) :
   · intro t ht; exact takeWhile_all _ _ t ht
   · intro t rest h; exact dropWhile_head _ _ t rest h
 
-theorem bindTitles_spec {V : Type} (titles : List Key) (rules : List (Rule V)) (slots : List Slot)
-    (h : bindTitles titles rules = .ok slots) :
+theorem bindTitles_spec {V : Type} (titles known : List Key) (rules : List (Rule V))
+    (slots : List Slot) (h : bindTitles titles known rules = .ok slots) :
     slots.length = rules.length ∧
     ∀ (i : Nat) (r : Rule V) (sl : Slot), rules[i]? = some r → slots[i]? = some sl →
-      bindRule titles (knownTitles rules) r = .ok sl := by
+      bindRule titles known r = .ok sl := by
   unfold bindTitles at h
   refine ⟨mapE_length _ _ _ h, ?_⟩
   intro i r sl hr hs
@@ -442,12 +442,12 @@ theorem bindTitles_spec {V : Type} (titles : List Key) (rules : List (Rule V)) (
 
 /-! ## one row → one object -/
 
-theorem zipInit_spec {V : Type} (cv : Conv V) :
+theorem zipInit_spec {V : Type} (cv : Conv V) (k : Nat) :
     ∀ (rules : List (Rule V)) (srcs : List Src) (attrs : List (AVal V × Origin)),
-      zipInit cv rules srcs = .ok attrs →
+      zipInit cv k rules srcs = .ok attrs →
         attrs.length = min rules.length srcs.length ∧
         ∀ (i : Nat) (a : AVal V × Origin), attrs[i]? = some a →
-          ∃ r s, rules[i]? = some r ∧ srcs[i]? = some s ∧ initAttr cv r s = .ok a := by
+          ∃ r s, rules[i]? = some r ∧ srcs[i]? = some s ∧ initAttr cv k r s = .ok a := by
   intro rules
   induction rules with
   | nil => intro srcs attrs h; simp [zipInit] at h; subst h; simp
@@ -472,9 +472,10 @@ theorem zipInit_spec {V : Type} (cv : Conv V) :
           | succ i => simpa using h2 i a' (by simpa using hi)
 
 theorem construct_some {V : Type} (cv : Conv V) (numId : Nat) (rules : List (Rule V))
-    (slots : List Slot) (row : Row) (o : Obj V)
-    (h : construct cv numId rules slots row = .ok (some o)) :
-    ∃ srcs, mapE (srcOf row) slots = .ok srcs ∧ zipInit cv rules srcs = .ok o.attrs := by
+    (slots : List Slot) (k : Nat) (row : Row) (o : Obj V)
+    (h : construct cv numId rules slots k row = .ok (some o)) :
+    ∃ srcs, mapE (srcOf row) slots = .ok srcs ∧ zipInit cv k rules srcs = .ok o.attrs ∧
+      o.serial = k := by
   unfold construct at h
   split at h
   · cases h
@@ -491,20 +492,20 @@ theorem construct_some {V : Type} (cv : Conv V) (numId : Nat) (rules : List (Rul
           · rename_i attrs ha
             split at h
             · cases h
-            · cases h; exact ha
+            · cases h; exact ⟨ha, rfl⟩
 
 /-- every attribute of an object built from `row` comes from its rule, its slot and `row` -/
 theorem construct_attr {V : Type} (cv : Conv V) (numId : Nat) (rules : List (Rule V))
-    (slots : List Slot) (row : Row) (o : Obj V)
-    (h : construct cv numId rules slots row = .ok (some o)) (hlen : slots.length = rules.length) :
-    o.attrs.length = rules.length ∧
+    (slots : List Slot) (k : Nat) (row : Row) (o : Obj V)
+    (h : construct cv numId rules slots k row = .ok (some o)) (hlen : slots.length = rules.length) :
+    o.attrs.length = rules.length ∧ o.serial = k ∧
     ∀ (i : Nat) (a : AVal V × Origin), o.attrs[i]? = some a →
       ∃ r sl s, rules[i]? = some r ∧ slots[i]? = some sl ∧ srcOf row sl = .ok s ∧
-        initAttr cv r s = .ok a := by
-  obtain ⟨srcs, hs, hz⟩ := construct_some cv numId rules slots row o h
+        initAttr cv k r s = .ok a := by
+  obtain ⟨srcs, hs, hz, hser⟩ := construct_some cv numId rules slots k row o h
   have hl := mapE_length _ _ _ hs
-  obtain ⟨h1, h2⟩ := zipInit_spec cv rules srcs o.attrs hz
-  refine ⟨by omega, ?_⟩
+  obtain ⟨h1, h2⟩ := zipInit_spec cv k rules srcs o.attrs hz
+  refine ⟨by omega, hser, ?_⟩
   intro i a ha
   obtain ⟨r, s, hr, hsi, hi⟩ := h2 i a ha
   obtain ⟨sl, hsl, hso⟩ := mapE_get _ _ _ hs i s hsi
@@ -530,12 +531,12 @@ def RangeOk {V : Type} (cv : Conv V) (titles known : List Key) (look : Nat → C
 
 /-- one attribute `a = (value, origin)` read by `rule` under the titles `titles`; `look j cell`:
 `cell` is the cell that holds the value of column `j` for the row the object was made from -/
-def AttrOk {V : Type} (cv : Conv V) (titles known : List Key) (look : Nat → Cell → Prop)
+def AttrOk {V : Type} (cv : Conv V) (titles known : List Key) (look : Nat → Cell → Prop) (k : Nat)
     (rule : Rule V) (a : AVal V × Origin) : Prop :=
   match a.2 with
-  | .na => ∃ d, rule = .ext d ∧ a.1 = .plain d
-  | .skipped => ∃ t ct d, rule = .col t ct (some d) ∧ t ∉ titles ∧ a.1 = .plain d
-  | .cell c => ∃ (t : Key) (ct : Nat) (d : Option V) (j : Nat) (cell : Cell) (v : V),
+  | .na => ∃ d, rule = .ext d ∧ a.1 = .plain (d k)
+  | .skipped => ∃ t ct d, rule = .col t ct (some d) ∧ t ∉ titles ∧ a.1 = .plain (d k)
+  | .cell c => ∃ (t : Key) (ct : Nat) (d : Option (Nat → V)) (j : Nat) (cell : Cell) (v : V),
       rule = .col t ct d ∧ titles[j]? = some t ∧
       (∀ j', j < j' → titles[j']? ≠ some t) ∧ look j cell ∧ cell.coord = c ∧
       cv.conv ct cell.val = .ok v ∧ a.1 = .plain v
@@ -585,7 +586,8 @@ theorem range_lengths
 theorem range_ok (kind : RangeKind) (opt : Bool) (a : AVal V × Origin)
     (hids : lookupAllLast titles (rangeNames known titles) = some ids)
     (hcells : mapE (getCell row) ids = .ok cells)
-    (hinit : initAttr cv (.range kind ct opt) (.range (rangeNames known titles) cells) = .ok a) :
+    (k : Nat)
+    (hinit : initAttr cv k (.range kind ct opt) (.range (rangeNames known titles) cells) = .ok a) :
     ∃ items, a.2 = .range items ∧
       RangeOk cv titles known (fun j c => row[j]? = some c) kind ct a.1 items := by
   simp only [initAttr] at hinit
@@ -676,7 +678,8 @@ end range
 theorem attr_ok {V : Type} (cv : Conv V) (titles known : List Key) (row : Row) (r : Rule V)
     (sl : Slot) (s : Src) (a : AVal V × Origin)
     (hb : bindRule titles known r = .ok sl) (hs : srcOf row sl = .ok s)
-    (hi : initAttr cv r s = .ok a) : AttrOk cv titles known (fun j c => row[j]? = some c) r a := by
+    (k : Nat) (hi : initAttr cv k r s = .ok a) :
+    AttrOk cv titles known (fun j c => row[j]? = some c) k r a := by
   cases r with
   | ext d =>
     simp only [bindRule] at hb; cases hb
@@ -724,7 +727,7 @@ theorem attr_ok {V : Type} (cv : Conv V) (titles known : List Key) (row : Row) (
         split at hs
         · rename_i cells hcells
           cases hs
-          obtain ⟨items, ho, hr⟩ := range_ok cv titles known row ct ids cells kind opt a hids hcells hi
+          obtain ⟨items, ho, hr⟩ := range_ok cv titles known row ct ids cells kind opt a hids hcells k hi
           unfold AttrOk
           rw [ho]
           exact ⟨kind, ct, opt, rfl, hr⟩
@@ -755,8 +758,8 @@ theorem bindRule_error {V : Type} (titles known : List Key) (r : Rule V) (e : Er
         rw [hids] at hn; cases hn
 
 theorem AttrOk.mono {V : Type} (cv : Conv V) (titles known : List Key) (look look' : Nat → Cell → Prop)
-    (hm : ∀ j c, look j c → look' j c) (rule : Rule V) (a : AVal V × Origin)
-    (h : AttrOk cv titles known look rule a) : AttrOk cv titles known look' rule a := by
+    (hm : ∀ j c, look j c → look' j c) (k : Nat) (rule : Rule V) (a : AVal V × Origin)
+    (h : AttrOk cv titles known look k rule a) : AttrOk cv titles known look' k rule a := by
   unfold AttrOk at h ⊢
   split
   · rename_i ho; simp only [ho] at h; exact h
